@@ -382,3 +382,82 @@ void bad_dec_cover__early_infty__ep_read_bin(ep_t a, const uint8_t *bin, size_t 
 		return;
 	}
 }
+
+/* ------------------------------------------------------------------ DEC-NF */
+void ok_dec_nf__bn_read_str(bn_t a, const char *str, size_t len, uint_t radix) {
+	int sign = (str[0] == '-') ? RLC_NEG : RLC_POS;
+	bn_grow(a, 2);
+	bn_zero(a);
+	a->dp[0] = (dig_t)(str[len - 1] - '0');
+	a->used = 1;
+	a->sign = sign;
+	bn_trim(a);
+}
+
+/* the sign is stored after the normalisation: "-0" decodes to a negative zero */
+void bad_dec_nf__negzero__bn_read_str(bn_t a, const char *str, size_t len, uint_t radix) {
+	int sign = (str[0] == '-') ? RLC_NEG : RLC_POS;
+	bn_grow(a, 2);
+	bn_zero(a);
+	a->dp[0] = (dig_t)(str[len - 1] - '0');
+	a->used = 1;
+	bn_trim(a);
+	a->sign = sign;
+}
+
+/* ------------------------------------------------------------------ ENC-NORM */
+void ok_enc_norm__ep_write_bin(uint8_t *bin, size_t len, const ep_t a, int pack) {
+	ep_t t;
+	ep_null(t);
+	ep_new(t);
+	if (len < RLC_FP_BYTES + 1) {
+		RLC_THROW(ERR_NO_BUFFER);
+		return;
+	}
+	ep_norm(t, a);
+	ep_pck(t, t);
+	bin[0] = 2 | fp_get_bit(t->y, 0);
+	fp_write_bin(bin + 1, RLC_FP_BYTES, t->x);
+}
+
+/* the compression works on the caller's point, which may be projective */
+void bad_enc_norm__input__ep_write_bin(uint8_t *bin, size_t len, const ep_t a, int pack) {
+	ep_t t;
+	ep_null(t);
+	ep_new(t);
+	if (len < RLC_FP_BYTES + 1) {
+		RLC_THROW(ERR_NO_BUFFER);
+		return;
+	}
+	ep_norm(t, a);
+	ep_pck(t, a);
+	bin[0] = 2 | fp_get_bit(t->y, 0);
+	fp_write_bin(bin + 1, RLC_FP_BYTES, t->x);
+}
+
+/* ------------------------------------------------------------------ DEC-DEF */
+/* z and the coordinate system are left to the decompression, which assigns them only when x has a square root */
+void bad_dec_def__stale_z__ep_read_bin(ep_t a, const uint8_t *bin, size_t len) {
+	if (len != (RLC_FP_BYTES + 1)) {
+		RLC_THROW(ERR_NO_BUFFER);
+		return;
+	}
+	fp_read_bin(a->x, bin + 1, RLC_FP_BYTES);
+	switch (bin[0]) {
+		case 2:
+			fp_zero(a->y);
+			break;
+		case 3:
+			fp_zero(a->y);
+			fp_set_bit(a->y, 0, 1);
+			break;
+		default:
+			RLC_THROW(ERR_NO_VALID);
+			return;
+	}
+	ep_upk(a, a);
+	if (!ep_on_curve(a)) {
+		RLC_THROW(ERR_NO_VALID);
+		return;
+	}
+}
